@@ -81,3 +81,55 @@ func H_C18_union_covers_both_sets() {
 		vpAssert(at == ina[i], "C18: unionInto changed its source set")
 	}
 }
+
+// ---- C18: the file-level sets are the union of the block-level sets (unionInto) ----
+//
+// Entry sets as indexRow leaves them (a field is present iff some pair under it is, a token iff
+// some pair with it is) over the universe {a,b} x {x,y}: after src.unionInto(dst) every entry of
+// src and every earlier entry of dst is in dst, nothing else is, src is unchanged — in particular a
+// block that brings no new field and no new token but a new PAIR still extends the file-level set.
+//
+//vp:bounds source and destination sets over fields {a,b}, tokens {x,y} and their 4 pairs, each pair present or absent in each (fields/tokens derived from the pairs)
+func H_C18_file_level_sets_are_the_union_of_the_block_level_sets() {
+	fields := []string{"a", "b"}
+	tokens := []string{"x", "y"}
+	mk := func() (*bloomEntrySets, [4]bool) {
+		s := newBloomEntrySets()
+		var has [4]bool
+		for i, f := range fields {
+			for j, t := range tokens {
+				if nondetBool() {
+					has[2*i+j] = true
+					s.fields[f] = struct{}{}
+					s.tokens[t] = struct{}{}
+					s.fieldTokens[makeFieldTokenKey(f, t)] = struct{}{}
+				}
+			}
+		}
+		return s, has
+	}
+	src, hs := mk()
+	dst, hd := mk()
+	srcCounts := src.counts()
+	src.unionInto(dst)
+	for i, f := range fields {
+		for j, t := range tokens {
+			_, inDst := dst.fieldTokens[makeFieldTokenKey(f, t)]
+			want := hs[2*i+j] || hd[2*i+j]
+			if want {
+				vpAssert(inDst, "C18: a field:token pair of a block is missing from the file-level set (the file-level filter will rule out a row the file holds)")
+			} else {
+				vpAssert(!inDst, "C26: the file-level set holds a pair no block has")
+			}
+		}
+	}
+	for i, f := range fields {
+		_, in := dst.fields[f]
+		vpAssert(in == (hs[2*i] || hs[2*i+1] || hd[2*i] || hd[2*i+1]), "C18: the file-level field set is not the union of the blocks' field sets")
+	}
+	for j, t := range tokens {
+		_, in := dst.tokens[t]
+		vpAssert(in == (hs[j] || hs[2+j] || hd[j] || hd[2+j]), "C18: the file-level token set is not the union of the blocks' token sets")
+	}
+	vpAssert(src.counts() == srcCounts, "C18: unionInto changed the block's own sets")
+}
